@@ -119,10 +119,11 @@ def directed_specs(result, seed, cap=5):
             if gkey[0] == 'cache' and kind not in ('Cm', 'Cs'):
                 continue
             later = sorted({t[1] for t in ts[i + 1:] if t[1] != tid})
-            if later:
+            earlier = sorted({t[1] for t in ts[:i] if t[1] != tid} - set(later))
+            if later or earlier:
                 per_victim.setdefault(tid, []).append((site_freq[(obj, lineno, kind)],
-                                                       0 if obj[0] == 'elem' else 1, tp, later,
-                                                       (obj, lineno, kind)))
+                                                       0 if obj[0] == 'elem' else 1, tp,
+                                                       (later, earlier), (obj, lineno, kind)))
         for tid in sorted(per_victim):
             lst = sorted(per_victim[tid], key=lambda c: (c[1], c[0], c[2]))
             pick, sites = [], set()
@@ -167,8 +168,15 @@ def directed_specs(result, seed, cap=5):
             if r <= acc:
                 break
         c = pool.pop(i)
+        later, earlier = c[6]
+        # callers that touched the object BEFORE the victim in the base run can only get into its
+        # window if they are held back until it opens (changes what precedes the window, so it is
+        # one more dimension that is sampled rather than always applied)
+        hold = earlier if (earlier and (not later or rng.random() < 0.5)) else []
+        if not later and not hold:
+            continue
         out.append({'mode': 'directed', 'segments': sched['segments'], 'victim': c[4], 'at': c[5],
-                    'drain': c[6]})
+                    'drain': hold + later, 'hold': hold})
     return out
 
 
